@@ -305,6 +305,9 @@ def build_data(cfg, src):
             dset = xr.DataArray(np.asarray(arr), coords=coords).to_dataset(name="data")
             if w is not None:
                 dset["weight"] = xr.DataArray(np.asarray(w), coords=coords)
+        # every input dataset looks as if it came out of an earlier fit (a result dataset fed back in): the attributes a fit
+        # writes are present with stale values and must not survive into the new result
+        dset.attrs.update({"root_mean_square_error": 123.456, "weighted_root_mean_square_error": 654.321, "dataset_scale": 77.0})
         data[lab] = dset
     return data
 
